@@ -10,7 +10,7 @@
   Specification: `Yae.Spec.Typing` (`Typed Γ e T`, the declarative rules; `instantiate`, matching
   of a parameter list against the argument types; `Typed'`, the natural variant of the overload
   rule).  Model: `Yae.Model.Check` (`check`).  Proofs: `Yae.Proofs.TypingCheck`,
-  `Yae.Proofs.TypingInfer`.
+  `Yae.Proofs.TypingNatural`, `Yae.Proofs.TypingD22`.
 
   What is proved, and under which hypotheses (`EnvOK Γ`, see `Yae.Proofs.TypingCheck`):
   * variable types are variable free, well formed and contain no function type (so the rule for
@@ -20,11 +20,21 @@
   * every registered polymorphic signature satisfies `PolyOK`: `inferFun` (the unifier-based
     instantiation of the checker, for *every* value of the type-variable counter) returns what
     the specification's `instantiate` returns, unless its internal fuel runs out.
+  THE GAP (`_partial`): `PolyOK name ps ret` is a hypothesis, it is not derived from a decidable
+  well-formedness condition on the signature.  The missing lemma is
+    `inferFun ctr name ps ret As = .error .fuel ∨
+     inferFun ctr name ps ret As = (match instantiate ps ret As with | some r => .ok r | none => .error .fail)`
+  for well-formed signatures whose variables differ from the fresh names `s<n>`/`t<n>`, without
+  function-typed parameters, and variable-free well-formed `As` (a simulation of `unify` on the
+  substitution `[s₁ := p₁, …, t := ret]` by `pmatch` on `[]`), plus `instantiate … = some (_, T) →
+  TyOK T`.  C17's `match_sound`/`match_complete` do not give it: they relate `unify` to `⊑`, which
+  is too coarse (see the report), and require a globally ground substitution.
   The internal fuel is a model artefact; it is kept visible: completeness says "accepted, or
   the fuel ran out", never hiding a fuel failure behind a rejection.
 -/
 import Yae.Proofs.TypingCheck
 import Yae.Proofs.TypingD22
+import Yae.Proofs.TypingNatural
 namespace Yae.C05
 open Yae
 
@@ -146,6 +156,43 @@ theorem mono_key_not_injective :
     tyEq (.obj (.cons "a" .num (.cons "b" .str .nil))) (.obj (.cons "a: num, b" .str .nil)) = false :=
   render_not_injective
 
+/-- Why `instantiate` is not stated as "`∃ σ`, `σ(params) ⊑ args`" (`⊑` of C17): that condition
+holds for `('a, 'a)` against `(list[⊥], list[num])` with `σ 'a = list[num]`, but the parameters
+cannot be instantiated (`'a` is bound to `list[⊥]` first, which is not equal to `list[num]`), so
+the checker moves on to the next overload.  "First overload satisfying the `⊑` condition" would
+select a different overload than the checker does. -/
+example :
+    (Ty.tuple (.cons (.list .num) (.cons (.list .num) .nil))) ⊑
+      (Ty.tuple (.cons (.list .bot) (.cons (.list .num) .nil))) ∧
+    instantiate (.cons (.var "a") (.cons (.var "a") .nil)) (.var "a")
+      (.cons (.list .bot) (.cons (.list .num) .nil)) = none :=
+  ⟨.tuple (.cons (.list (.botR _)) (.cons (.list .num) .nil)), rfl⟩
+
+/-- Everything the checker's rules type, the natural rules type, with the same type. -/
+theorem natural_rule_contains {Γ : TEnv} {e : Expr} {T : Ty} (h : Typed Γ e T) : Typed' Γ e T :=
+  typed_imp_typed' e T h
+
+/-- The two polymorphic-overload rules coincide (same overload, same instantiated parameters,
+same result) when no argument type contains `⊥`/`⊤` and no candidate parameter contains `⊤`:
+then an instantiation that succeeds is exact, so "first that can be instantiated, then must be
+equal" and "first that can be instantiated and is equal" select the same candidate.
+(The two systems differ in this rule only; the lifting of the converse inclusion to whole
+expressions, under the side condition for every call inside, is not stated.) -/
+theorem overload_rules_coincide {cands : List FunDecl} {As ps' : TyList} {T : Ty}
+    (hA : noBTList As = true) (hw : wfList As = true) (hc : CandsNoTop cands) :
+    (FirstInst cands As ps' T ∧ tyEqList ps' As = true) ↔ FirstAccepted cands As ps' T :=
+  ⟨fun h => firstInst_accepted h.1 h.2, firstAccepted_inst hA hw hc⟩
+
+/-- non-vacuity: the D22 overloads applied to an argument of type `num` — here both rules select
+the second overload (`f('a) str`) -/
+example : noBTList (.cons .num .nil) = true ∧ wfList (.cons .num .nil) = true ∧
+    CandsNoTop d22Env.funs ∧
+    FirstAccepted d22Env.funs (.cons .num .nil) (.cons .num .nil) .str := by
+  refine ⟨rfl, rfl, ?_, .later rfl (fun qs U h => by cases h) (.here rfl rfl rfl)⟩
+  intro d hd name ps ret hty
+  simp only [d22Env, List.mem_cons, List.not_mem_nil, or_false] at hd
+  rcases hd with rfl | rfl <;> cases hty <;> rfl
+
 end Yae.C05
 
 #print axioms Yae.C05.sound_partial
@@ -163,3 +210,5 @@ end Yae.C05
 #print axioms Yae.C05.d22_natural_rule_accepts
 #print axioms Yae.C05.d22_checker_rule_rejects
 #print axioms Yae.C05.mono_key_not_injective
+#print axioms Yae.C05.natural_rule_contains
+#print axioms Yae.C05.overload_rules_coincide
